@@ -1029,12 +1029,17 @@ pub fn enumerate_c19(file: &CorpusFile, thorough: bool) -> Vec<Variant> {
         // the lines that open or close a CDATA section delimit the embedded BDL / GT texts: every
         // file gets its own cells for them, so that even the quick tier damages each of them
         let boundary = if file.kind == FileKind::Ctehexml && (l.contains("<![CDATA[") || l.contains("]]>")) { format!("|section boundary|{}", file.rel) } else { String::new() };
+        // the first vertex of a polygon: losing it empties the polygon (the reader stops at the
+        // first missing Vn), which is a different input class from losing any other vertex; every
+        // polygon gets its own cell for it
+        let first_vertex = file.kind == FileKind::Ctehexml && li.region == "POLYGON" && li.key == "V1";
         let cellbase = format!("{}|{}|{}{}{}", fk, li.region, li.key, if non_ascii_block[i] { "|non-ascii block" } else { "" }, boundary);
         let blank = l.trim().is_empty();
         let mut push = |e: Edit| {
             let cell = match &e {
                 Edit::NumOor { val, .. } => format!("{}|{}={}", cellbase, e.kind_name(), val),
                 Edit::DelimDropped { which, .. } | Edit::TruncAtDelim { which, .. } => format!("{}|{}:{}", cellbase, e.kind_name(), which),
+                Edit::DelLine { .. } if first_vertex => format!("{}|{}|first vertex|{}|{}", cellbase, e.kind_name(), file.rel, i),
                 _ => format!("{}|{}", cellbase, e.kind_name()),
             };
             out.push(Variant { edit: e, cell });
